@@ -33,6 +33,10 @@ type runtimeContextManager struct {
 
 	messageHandler Callable
 
+	// The thread that installed messageHandler: the handler applies to errors
+	// raised in that thread only (a coroutine has its own protected calls).
+	messageHandlerThread *Thread
+
 	trackCpu         bool
 	trackMem         bool
 	trackTime        bool
